@@ -373,6 +373,8 @@ type stepScenario struct {
 	StopVia string    `json:"stopVia,omitempty"`
 	SlowHistory bool  `json:"slowHistory,omitempty"`
 	BaseCfgFault bool `json:"baseCfgFault,omitempty"`
+	StartOffsetMs int `json:"startOffsetMs,omitempty"` // the run starts this far into a wall-clock second
+	GenerousTimeout bool `json:"generousTimeout,omitempty"` // the DAG has a timeout that the run does not reach
 	IOFault *ioFaultCfg `json:"ioFault,omitempty"`
 	YAML    string    `json:"yaml,omitempty"`
 }
@@ -495,6 +497,20 @@ func stepsim(t *testing.T, tp *simrt.Tape, opts RunOpts) *Outcome {
 		// file cannot be read when the run starts: the run must then be refused, not run without a limit
 		sc.Dag.BaseLimit = true
 		sc.BaseCfgFault = chance(tp, 1, 2)
+	}
+	if sc.Variant == "sched" || sc.Variant == "iofault" {
+		sc.StartOffsetMs = pick(tp, 0, 0, 137, 500, 870, 950, 999)
+	}
+	if sc.Variant == "sched" && !sc.Dag.BaseLimit && chance(tp, 1, 12) {
+		// motif: a DAG with a timeout that is not reached, started late in a wall-clock second, with a step that
+		// fails in the last second before the deadline and a dependent that continues on failure
+		sc.StartOffsetMs = pick(tp, 700, 870, 950)
+		sc.Dag = &DagSpec{File: "wf", TimeoutSec: 2, Steps: []StepSpec{
+			{Name: "s0", RetryLimit: -1, FailFirst: -1, ContFail: true, DurMs: []int{pick(tp, 1250, 1500, 1700)}},
+			{Name: "s1", RetryLimit: -1, Depends: []string{"s0"}, DurMs: []int{pick(tp, 0, 50)}},
+			{Name: "s2", RetryLimit: -1, DurMs: []int{pick(tp, 0, 300)}},
+		}}
+		sc.GenerousTimeout = true
 	}
 	if sc.Variant == "iofault" {
 		// a third of the steps carry a script (written to a temporary file before each attempt); retries wait
@@ -623,6 +639,9 @@ func stepsim(t *testing.T, tp *simrt.Tape, opts RunOpts) *Outcome {
 		}
 		if sc.Variant == "dry" {
 			mutBefore = fsOf(w).Dump(dataDir)
+		}
+		if sc.StartOffsetMs > 0 {
+			simrt.Sleep(time.Duration(sc.StartOffsetMs) * time.Millisecond)
 		}
 		ar = spawnAgent(w, sc.Dag, "", sc.Variant == "dry", nil)
 		if sc.StopAt > 0 {
@@ -996,7 +1015,33 @@ func (c *stepCheck) check() {
 		}
 	}
 
-	if stopped || d.TimeoutSec > 0 {
+	timeoutInPlay := d.TimeoutSec > 0
+	if timeoutInPlay && c.sc.GenerousTimeout {
+		// the run ended well before its timeout: the timeout plays no part
+		// (measured from the start of the agent process, which is before the scheduler starts counting; and
+		// no step may have been signalled or killed)
+		first := time.Duration(c.sc.StartOffsetMs) * time.Millisecond
+		var last time.Duration
+		cut := false
+		for _, r := range c.truth.Runs {
+			if r.EndSeq == 0 || r.Signaled != "" || len(r.Signals) > 0 {
+				cut = true
+			}
+			if r.EndAt > last {
+				last = r.EndAt
+			}
+		}
+		for _, e := range c.res.Events {
+			if e.Kind == "proc_exit" && c.ar != nil && c.ar.proc != nil && int(e.N) == c.ar.proc.Pid && e.At > last {
+				last = e.At // the end of the run, not of its last step: a stalled worker may process a step's end late
+			}
+		}
+		if !cut && len(c.truth.Runs) > 0 && last-first < time.Duration(d.TimeoutSec)*time.Second-100*time.Millisecond {
+			timeoutInPlay = false
+			bump(c.out, "timeout_configured_but_not_reached")
+		}
+	}
+	if stopped || timeoutInPlay {
 		c.checkRetryCountsStopped()
 		c.checkOutcome(runsBy, finalBy, stopped)
 		return
@@ -1197,7 +1242,7 @@ func (c *stepCheck) checkOutcome(runsBy map[string][]*StepRun, finalBy map[strin
 	}
 	allowed := map[string]bool{}
 	switch {
-	case stopped || d.TimeoutSec > 0:
+	case stopped || (d.TimeoutSec > 0 && !c.sc.GenerousTimeout):
 		// interval rule: the stop may have landed after the last step ended
 		allowed["canceled"] = true
 		if allOK {
